@@ -359,7 +359,7 @@ Qed.
 Definition writes_s (s : sstmt) : list string :=
   match s with
   | SAppend f _ | SSetdef f _ | SAugAdd f _ _ | SAssign f _ | SAssignDict f _ => [f]
-  | SMapStrip _ => ["_map"%string]
+  | SMapStrip _ | SMapPrefix _ => ["_map"%string]
   | SLet _ _ | SRoster _ _ => []
   end.
 Definition roster_s (s : sstmt) : bool := match s with SRoster _ _ => true | _ => false end.
@@ -748,3 +748,15 @@ Proof.
   - apply existsb_exists in H. destruct H as (k & Hin & E). apply String.eqb_eq in E. subst. contradiction.
   - apply negb_true_iff in H. exact H.
 Qed.
+
+(* the map name (after the repair recorded as fixed: C09-a): the setter removes the PREFIX "spaces/" and nothing else *)
+Theorem map_setter_removes_prefix ctl ev loc st e b :
+  eval {| cx_ev := ev; cx_locals := loc; cx_st := st |} e = Ok (PStr b) ->
+  exec_s ctl {| cx_ev := ev; cx_locals := loc; cx_st := st |} (SMapPrefix e) = (loc, set_field st "_map" (PStr (remove_prefix spaces_set b)), None).
+Proof. intros H. cbn [exec_s cx_st cx_locals]. rewrite H. reflexivity. Qed.
+Lemma strip_prefix_app : forall p s, strip_prefix p (p ++ s) = Some s.
+Proof. induction p as [|a p IH]; cbn; intros s; [reflexivity|]. rewrite (proj2 (byte_eqb_eq a a) eq_refl). apply IH. Qed.
+Theorem remove_prefix_spec p s : remove_prefix p (p ++ s) = s.
+Proof. unfold remove_prefix. rewrite strip_prefix_app. reflexivity. Qed.
+Theorem remove_prefix_absent p s : strip_prefix p s = None -> remove_prefix p s = s.
+Proof. unfold remove_prefix. intros ->. reflexivity. Qed.
